@@ -156,6 +156,18 @@ __wrap_free(void * p)
 /* ------------------------------------------------------------------ sockets */
 int __real_close(int);
 
+/* A system call that succeeds may leave any value in errno; the scripted ones leave the next value
+ * of this rotation, so code that looks at errno without a failed call in front of it sees the
+ * "would block" / "interrupted" / "reset" values as often as 0. */
+static void
+stale_errno(void)
+{
+	static const int v[6] = { EAGAIN, EINTR, 0, ECONNRESET, EPIPE, EINPROGRESS };
+	static unsigned k;
+
+	errno = v[k++ % 6];
+}
+
 int
 __wrap_socket(int domain, int type, int protocol)
 {
@@ -165,6 +177,7 @@ __wrap_socket(int domain, int type, int protocol)
 	wh.nsocket++;
 	if ((fd = open("/dev/null", O_RDWR)) == -1)
 		return (-1);
+	stale_errno();
 	return (fd);
 }
 
@@ -187,6 +200,7 @@ __wrap_getsockopt(int s, int level, int optname, void * optval, socklen_t * optl
 		*(int *)optval = wh.sockerr;
 		*optlen = sizeof(int);
 	}
+	stale_errno();
 	return (0);
 }
 
@@ -195,6 +209,7 @@ __wrap_setsockopt(int s, int level, int optname, const void * optval, socklen_t 
 {
 
 	(void)s; (void)level; (void)optname; (void)optval; (void)optlen;
+	stale_errno();
 	return (0);
 }
 
@@ -203,7 +218,13 @@ __wrap_close(int fd)
 {
 
 	wh.nclose++;
-	return (__real_close(fd));
+	{
+		int rc = __real_close(fd);
+
+		if (rc == 0)
+			stale_errno();
+		return (rc);
+	}
 }
 
 /* Is there anything the server side would answer to a recv() right now? */
@@ -242,6 +263,7 @@ __wrap_poll(struct pollfd * fds, nfds_t nfds, int timeout)
 	}
 	if (n == 0)
 		wh.stalled = 1;
+	stale_errno();
 	return (n);
 }
 
@@ -274,6 +296,7 @@ __wrap_recv(int s, void * buf, size_t len, int flags)
 		} else {
 			switch (wh.ending) {
 			case 'e':
+				stale_errno();
 				return (0);
 			case 'r':
 				errno = ECONNRESET;
@@ -292,6 +315,7 @@ __wrap_recv(int s, void * buf, size_t len, int flags)
 		memcpy(buf, wh.stream + wh.pos, n);
 	wh.pos += n;
 	wh.seg_left -= n;
+	stale_errno();
 	return ((ssize_t)n);
 }
 
@@ -318,5 +342,6 @@ __wrap_send(int s, const void * buf, size_t len, int flags)
 	}
 	memcpy(wh.sent + wh.sentlen, buf, n);
 	wh.sentlen += n;
+	stale_errno();
 	return ((ssize_t)n);
 }
